@@ -237,7 +237,7 @@ def _(c):
             note='inductive step of the block loop from an ARBITRARY state (any number of bits already consumed, any total bit length, any earlier-calls offset): '
                  'either exactly the current block is handed out with self.bitcnt == offset + consumed bits and the next block is read, or the loop is left with nothing yielded and nothing changed')
 def _(c):
-    from pyvc.sbytes import SBytesIO
+    if c.mode == 'sym': from pyvc.sbytes import SBytesIO
     bl = c.case('bl')
     p = pad.pkcs7(8 * bl)
     k = c.int('k', 0, 1 << 60)                  # blocks handed out so far in this call
